@@ -23,7 +23,7 @@ RULE = ("Hypothesis draws scalar recipes biased to where a degree claim can be w
         "(exact Fractions for rational recipes, float with a 1e-6 relative threshold otherwise).  "
         "Non-trivial = finite degree reported, >= 1 variable, >= 2 operator/reduction nodes."
         '  Also: sub-expressions may be classified before the whole (cache state), parameters are updated after the first classification, and reductions over heterogeneous vector expressions (element degrees differ, highest not first) are generated on purpose.')
-BUDGET = {"quick": {"workers": 16, "examples": 400}, "thorough": {"workers": 16, "examples": 10000}}
+BUDGET = {"quick": {"workers": 16, "examples": 600}, "thorough": {"workers": 16, "examples": 10000}}
 ASSUMPTIONS = ["a non-polynomial that is polynomial along three random rational lines is not detected (measure zero)"]
 MANIFEST = {
  "technique": "property-based testing (Hypothesis): degree claims vs exact rational polynomial expansion / exact finite differences",
